@@ -416,6 +416,7 @@ pub fn exec_spec(ctx: &mut Ctx, spec: &RunSpec, idx: u64) -> RunResult {
         violations,
         peak: ex.alloc.peak as u64,
         cpu_us: (ex.cpu_ns / 1000) as u64,
+        phase: ("seeded-histories").to_string(),
     }
 }
 
